@@ -62,6 +62,9 @@ Record response := {
   s_status : N;
   s_headers : headers;
   s_frames : list frame;       (* as hyper's client delivers them: any boundary placement *)
+  s_aborted : bool;            (* the body stream ends with an ERROR after these frames (the host
+                                  connection failed before the end of the body) instead of a
+                                  regular end of stream *)
 }.
 
 (* integer byte order helpers, any width *)
@@ -88,7 +91,10 @@ Definition map_frame (f : frame) : frame :=
 Definition client_resp_of (r : response) : response :=
   {| s_status := s_status r;
      s_headers := hm_insert auth_header marker_value (s_headers r);
-     s_frames := map map_frame (s_frames r) |}.
+     s_frames := map map_frame (s_frames r);
+     (* map_frame maps frames only: an error item of the stream passes through as an error,
+        so hyper's server aborts the transfer to the client instead of terminating it *)
+     s_aborted := s_aborted r |}.
 
 Definition frame_data (f : frame) : bytes := match f with FData d => d | FTrailers _ => [] end.
 Definition body_of (fs : list frame) : bytes := flat_map frame_data fs.
@@ -236,5 +242,6 @@ Definition c14_request_case (is_admin : Z) (now : bytes) (m path : bytes) (q : o
 
 (* response leg: status, header list and body the client must receive *)
 Definition c14_response_case (status : N) (wire : list (bytes * bytes)) (frames : list bytes) :=
-  let r := client_resp_of {| s_status := status; s_headers := of_wire wire; s_frames := map FData frames |} in
+  let r := client_resp_of {| s_status := status; s_headers := of_wire wire; s_frames := map FData frames;
+                           s_aborted := false |} in
   (s_status r, s_headers r, body_of (s_frames r)).
